@@ -531,6 +531,16 @@ class FunctionTerms:
             return new
         out = []
         for st in body:
+            # for a, b in TABLE  with TABLE a module-level tuple display (bound once, at most 6 rows of names / literals): unrolled row by row
+            rows = self._module_table(st.iter) if isinstance(st, ast.For) and not st.orelse else None
+            if rows is not None and not list(own_level(st.body, (ast.Break, ast.Continue))):
+                import copy
+                unrolled = []
+                for row in rows:
+                    unrolled.append(loc(ast.Assign(targets=[copy.deepcopy(st.target)], value=copy.deepcopy(row)), st))
+                    unrolled.extend(copy.deepcopy(x) for x in st.body)
+                out.extend(self._canonical_loops(unrolled))
+                continue
             # for i in count(a)  ->  i = a; while True: ...; i += 1
             if isinstance(st, ast.For) and not st.orelse and isinstance(st.target, ast.Name) and isinstance(st.iter, ast.Call) \
                     and self.prog.resolve(self.module, st.iter.func) == "itertools.count" and len(st.iter.args) <= 1 and not st.iter.keywords \
@@ -566,6 +576,25 @@ class FunctionTerms:
                         st = loc(ast.For(target=ast.Name(id=cnt.id, ctx=ast.Store()), iter=rng, body=rest, orelse=[end], type_comment=None), st)
             out.append(st)
         return out
+
+    def _module_table(self, it: ast.expr):
+        """Rows of a module-level dispatch table: a name of this module bound exactly once to a tuple display of at most 6 rows, every
+        row a name / attribute / scalar literal or a tuple of those (no call: nothing is evaluated per row); None otherwise."""
+        if not isinstance(it, ast.Name) or it.id in self.locals:
+            return None
+        v = self.module.assigns.get(it.id)
+        if not isinstance(v, ast.Tuple) or not 1 <= len(v.elts) <= 6:
+            return None
+        if sum(1 for n in ast.walk(self.module.tree) if isinstance(n, ast.Name) and n.id == it.id and isinstance(n.ctx, (ast.Store, ast.Del))) != 1:
+            return None
+        if any(isinstance(n, ast.Global) and it.id in n.names for n in ast.walk(self.module.tree)):
+            return None
+
+        def atom(e):
+            return isinstance(e, (ast.Name, ast.Constant)) or (isinstance(e, ast.Attribute) and atom(e.value))
+        if all(atom(r) or (isinstance(r, ast.Tuple) and r.elts and all(atom(x) for x in r.elts)) for r in v.elts):
+            return list(v.elts)
+        return None
 
     def locals_shadowing_count(self) -> set:
         return set()
